@@ -404,7 +404,19 @@ def p_text_shadow(s):
   if s == "none":
     return ("S", "none")
   shadows = []
-  for part in s.split(","):
+  parts, depth, cur = [], 0, []
+  for ch in s:                       # commas inside rgb()/rgba() do not separate shadows
+    if ch == "(":
+      depth += 1
+    elif ch == ")":
+      depth -= 1
+    if ch == "," and depth == 0:
+      parts.append("".join(cur))
+      cur = []
+    else:
+      cur.append(ch)
+  parts.append("".join(cur))
+  for part in parts:
     w = part.strip(" ").split(" ")
     if len(w) < 2 or len(w) > 4 or any(x == "" for x in w):
       raise Malformed("bad shadow")
